@@ -129,7 +129,7 @@ Proof.
 Qed.
 Lemma read_symbols_inv fuel x : sticky_inv x -> sticky_inv (fst (read_symbols api_next fuel x)).
 Proof.
-  intros H; unfold read_symbols. destruct (negb (x_type x =? TList)); [exact H|].
+  intros H; unfold read_symbols. destruct (negb (x_type x =? TList) || x_is_null x); [exact H|].
   pose proof (step_in_inv x H) as H1. destruct (x_step_in x) as [x1 [[|]| | |]]; cbn [fst] in *; auto.
   pose proof (read_symbols_loop_inv fuel x1 [] H1) as H2.
   destruct (read_symbols_loop api_next fuel x1 []) as [x2 [sy| | |]]; cbn [fst] in *; auto.
@@ -173,7 +173,7 @@ Proof.
   { intros r. destruct (x_type x =? TSymbol); [|discriminate].
     destruct (x_err x); [intros E; injection E as <-; exact H|].
     destruct (x_value x) as [| | | | | | |tk| | |]; try discriminate.
-    destruct (tk_sid tk =? 3)%Z; [|discriminate].
+    destruct (is_append_marker tk); [|discriminate].
     destruct (x_lst x); intros E; injection E as <-; exact H. }
   match goal with |- sticky_inv (fst (match ?c with _ => _ end)) => destruct c as [r|] end; [apply Hc; reflexivity|].
   destruct (negb (x_type x =? TList) || x_is_null x); [exact H|].
